@@ -844,9 +844,17 @@ class ExternalTensor(TensorBase, _protocols.TensorProtocol):  # pylint: disable=
         # or EACCES), the entry is taken to be a non-link, so a symlink there is not followed
         # and path_real / base_real are not where the kernel goes. Cross-check both against
         # the kernel: the resolved strings must name the very objects the original strings do.
+        # os.stat() follows symbolic links, so equal inodes alone do not show that path_real is
+        # link-free: a link realpath() could not see (it lstat'ed a much longer spelling of the
+        # same entry, e.g. a relative one with hundreds of leading "..") is followed by both
+        # stat calls. A resolved path is a fixed point of realpath(); resolving the two answers
+        # again only looks at their own prefixes, which os.stat() has just shown to be usable.
         try:
-            resolved_ok = os.path.samestat(file_stat, os.stat(path_real)) and os.path.samestat(
-                os.stat(os.fspath(self._base_dir)), os.stat(base_real)
+            resolved_ok = (
+                os.path.samestat(file_stat, os.stat(path_real))
+                and os.path.samestat(os.stat(os.fspath(self._base_dir)), os.stat(base_real))
+                and os.path.normcase(os.path.realpath(path_real)) == path_real
+                and os.path.normcase(os.path.realpath(base_real)) == base_real
             )
         except OSError:
             resolved_ok = False
